@@ -530,6 +530,36 @@ func (t *Topic) handleTopicTermination(sd *shutDown) {
 		s.detachSession(t.name)
 	}
 
+	// Requests which are still queued will never be processed. Answer them and release the sessions'
+	// in-flight request accounting, otherwise these sessions remain blocked forever.
+	now := types.TimeNow()
+	for len(t.reg) > 0 {
+		if msg := <-t.reg; msg.sess != nil {
+			msg.sess.queueOut(ErrLockedReply(msg, now))
+			if msg.sess.inflightReqs != nil {
+				msg.sess.inflightReqs.Done()
+			}
+		}
+	}
+	for len(t.unreg) > 0 {
+		if msg := <-t.unreg; msg.sess != nil && msg.init {
+			msg.sess.queueOut(ErrLockedReply(msg, now))
+			if msg.sess.inflightReqs != nil {
+				msg.sess.inflightReqs.Done()
+			}
+		}
+	}
+	for len(t.clientMsg) > 0 {
+		if msg := <-t.clientMsg; msg.sess != nil && msg.init && msg.Pub != nil {
+			msg.sess.queueOut(ErrLockedReply(msg, now))
+		}
+	}
+	for len(t.meta) > 0 {
+		if msg := <-t.meta; msg.sess != nil && msg.init {
+			msg.sess.queueOut(ErrLockedReply(msg, now))
+		}
+	}
+
 	usersRegisterTopic(t, false)
 
 	// Report completion back to sender, if 'done' is not nil.
